@@ -43,6 +43,10 @@ pub fn judge_value(ctx: &Ctx, case: &Value) -> Result<(), Fail> {
         let c: props::frontends::PySeq = serde_json::from_value(c.clone()).map_err(bad)?;
         return props::frontends::replay_py(ctx, &c);
     }
+    if case.get("dev_profile").is_some() {
+        let c: GenCase = serde_json::from_value(case["case"].clone()).map_err(bad)?;
+        return props::procs::replay_c09_dev(ctx, &c);
+    }
     if case.get("reach").is_some() {
         // C12 is existential over a seed range: re-run the batch check
         let o = props::lib_level::run_c12(ctx);
